@@ -199,8 +199,10 @@ let cmd_forces line =
   let nn = ni () in
   let nodes = List.init nn (fun _ -> let x = nf () in let y = nf () in let z = nf () in { vx = x; vy = y; vz = z }) in
   let nfc = ni () in
-  let faces = List.init nfc (fun _ -> let a = ni () in let b = ni () in let c = ni () in let ty = ni () in
-    frc_refresh_f nodes ((int_to_n a, int_to_n b), int_to_n c) (int_to_nat ty)) in
+  let faces_flagged = List.init nfc (fun _ -> let a = ni () in let b = ni () in let c = ni () in let ty = ni () in
+    (ty >= 0, frc_refresh_f nodes ((int_to_n a, int_to_n b), int_to_n c) (int_to_nat (max ty 0)))) in
+  let faces_all = List.map snd faces_flagged in                                         (* indexed by face slot (hinges) *)
+  let faces = List.map snd (List.filter fst faces_flagged) in                          (* the used faces, in slot order *)
   let ne = ni () in
   let hinges = List.init ne (fun _ -> let a = ni () in let b = ni () in let f1 = ni () in let f2 = ni () in
     { h_n1 = int_to_n a; h_n2 = int_to_n b; h_f1 = int_to_nat f1; h_f2 = int_to_nat f2 }) in
@@ -210,7 +212,7 @@ let cmd_forces line =
   let f0 = List.map (fun _ -> { vx = zero; vy = zero; vz = zero }) nodes in
   let do_p f = frc_pressure_f p faces f in
   let do_t f = frc_tension_f libm nodes tensions ka iso vol area faces f in
-  let do_b f = frc_bending_f libm m_pi nodes bends faces hinges f in
+  let do_b f = frc_bending_f libm m_pi nodes bends faces_all hinges f in
   let do_a f = frc_anglereg_f libm m_pi dbl_eps dbl_min nodes kreg faces f in
   let f = match term with 0 -> do_p f0 | 1 -> do_t f0 | 2 -> do_b f0 | 3 -> do_a f0 | _ -> do_a (do_b (do_t (do_p f0))) in
   let b = Buffer.create 1024 in
@@ -253,7 +255,36 @@ let cmd_replay line =
       (s_of_f v.ns_mom.vx) (s_of_f v.ns_mom.vy) (s_of_f v.ns_mom.vz))) ns;
     print_endline (Buffer.contents b)
 
-let commands : (string * (string -> unit)) list ref = ref [ ("replay", cmd_replay); ("forces", cmd_forces); ("geometry", cmd_geometry); ("valid", cmd_valid); ("cellcycle", cmd_cellcycle); ("kernel", cmd_kernel); ("grid", cmd_grid); ("integrate", cmd_integrate) ]
+(* ---------------------------------------------------------------- C08 population bookkeeping *)
+let cmd_population line =
+  let t = Array.of_list (toks line) in
+  let pos = ref 0 in
+  let next () = let s = t.(!pos) in incr pos; s in
+  let ni () = int_of_string (next ()) in
+  let n = ni () in let counter = ni () in
+  let ids0 = List.init n (fun _ -> ni ()) in
+  (* the initial state as dumped (ids may not be 0..n-1 if the dump starts later) *)
+  let p0 = { p_cells = List.mapi (fun k i -> { p_id = int_to_n i; p_local = int_to_nat k }) ids0; p_counter = int_to_n counter } in
+  let b = Buffer.create 256 in
+  let show p =
+    if not (pop_inv_b p) then Buffer.add_string b "INVBROKEN "
+    else ();
+    Buffer.add_string b (Printf.sprintf "%d" (n_to_int p.p_counter));
+    List.iter (fun c -> Buffer.add_string b (Printf.sprintf " %d" (n_to_int c.p_id))) p.p_cells in
+  show p0;
+  let p = ref p0 in
+  while !pos < Array.length t do
+    let _ = next () in (* D *)
+    let nd = ni () in let ms = List.init nd (fun _ -> int_to_nat (ni ())) in
+    let _ = next () in (* R *)
+    let nr = ni () in let rs = List.init nr (fun _ -> int_to_n (ni ())) in
+    p := pop_step !p (EvDivide ms);
+    p := pop_step !p (EvRemove rs);
+    Buffer.add_string b " | "; show !p
+  done;
+  print_endline (Buffer.contents b)
+
+let commands : (string * (string -> unit)) list ref = ref [ ("population", cmd_population); ("replay", cmd_replay); ("forces", cmd_forces); ("geometry", cmd_geometry); ("valid", cmd_valid); ("cellcycle", cmd_cellcycle); ("kernel", cmd_kernel); ("grid", cmd_grid); ("integrate", cmd_integrate) ]
 
 let () =
   let cmd = Sys.argv.(1) in
